@@ -418,14 +418,57 @@ async def random_schedule(ex, spawn, settle):
         ex.check_after_close()
 
 
+class virtual_time:
+    """While a schedule runs, every httpcore module that imported `time` sees the explorer's virtual clock."""
+
+    def __init__(self, ex):
+        self.ex = ex
+        self.saved = []
+
+    def __enter__(self):
+        import sys
+        import time as real_time
+        ex = self.ex
+
+        class VTime:
+            @staticmethod
+            def monotonic():
+                now = getattr(ex, "now", None)
+                return now() if now else 1000.0
+
+            @staticmethod
+            def time():
+                return VTime.monotonic()
+
+            def __getattr__(self, name):
+                return getattr(real_time, name)
+
+        vt = VTime()
+        for name, m in list(sys.modules.items()):
+            if (name == "httpcore" or name.startswith("httpcore.")) and getattr(m, "time", None) is real_time:
+                self.saved.append(m)
+                m.time = vt
+        return self
+
+    def __exit__(self, *a):
+        import time as real_time
+        for m in self.saved:
+            m.time = real_time
+
+
+def run_schedule(ex, schedule_fn):
+    with virtual_time(ex):
+        if ex.runtime == "asyncio":
+            run_asyncio(ex, schedule_fn)
+        else:
+            run_trio(ex, schedule_fn)
+    return ex
+
+
 def run_one(runtime, cfg, seed):
     rng = random.Random(seed)
     ex = Explorer(runtime, cfg, rng)
-    if runtime == "asyncio":
-        run_asyncio(ex, random_schedule)
-    else:
-        run_trio(ex, random_schedule)
-    return ex
+    return run_schedule(ex, random_schedule)
 
 
 def gen_cfg(rng, profile):
